@@ -238,14 +238,19 @@ def make_unit(iset, cube_name, cube_pred, memarch='PMSA', nregions=1, props=('C1
             same.append(('mem', lor(skip, sym.SymBool(mem.term == mem.init))))
             ob = eng.oblige_all('safe.noop', '%s: failed condition leaves everything but PC/ITSTATE unchanged' % tag, same)
             ob.props = ['C05']
-        elif 'fetch-abort' not in events and any(e != 'take_undef_instr_exception' for e in took):
-            # SVC / SMC / Hyp trap / data abort raised by the instruction itself: only when its condition passes
-            # (an UNDEFINED encoding may take its exception whether or not the condition passes: IMPLEMENTATION DEFINED)
+        elif 'fetch-abort' not in events and took:
+            # SVC / SMC / Hyp trap / data abort raised by the instruction itself: only when its condition passes.
+            # An UNDEFINED *encoding* (no row of the table, or a row's decode-time UNDEFINED) may take its exception
+            # whether or not the condition passes (IMPLEMENTATION DEFINED); an Undefined Instruction exception the
+            # *operation* generates (zero-divide trap, UNDEFINED in this mode) sits inside ConditionPassed().
             cond, cu = cur_cond_spec(iset, instr, oplen, cpsr0)
             passed = P.ConditionHolds(cond, bit(cpsr0, 31), bit(cpsr0, 30), bit(cpsr0, 29), bit(cpsr0, 28))
             it0 = ST.cpsr_field(cpsr0, 'it')
-            ob = eng.oblige('safe.noop', '%s: an instruction whose condition fails raises no exception (%s)' % (tag, ','.join(took)),
-                            lor(passed, unpred, cu, _is_bkpt(iset, instr), land(bits(it0, 3, 0) != 0, _unpred_in_it_block(iset, instr))))
+            waive = lor(passed, unpred, cu, _is_bkpt(iset, instr), land(bits(it0, 3, 0) != 0, _unpred_in_it_block(iset, instr)))
+            if all(e == 'take_undef_instr_exception' for e in took):
+                if not eng.prove(sym.zb(waive)):
+                    waive = lor(waive, table_decode_undefined(iset, instr, oplen, init, mem.init))
+            ob = eng.oblige('safe.noop', '%s: an instruction whose condition fails raises no exception (%s)' % (tag, ','.join(took)), waive)
             ob.props = ['C05']
         # ---- C19 privilege confinement
         was_user = mode0 == ST.USR
@@ -464,6 +469,25 @@ def table_unpredictable(iset, instr, oplen, init, mem0):
     for r, mt in live_rows(iset, instr):
         out.append(land(mt, row_unpred_undef(r, instr, base)[0]))
     return lor(*out) if out else False
+
+
+def table_decode_undefined(iset, instr, oplen, init, mem0):
+    """the word is an UNDEFINED or UNPREDICTABLE *encoding*: no row of the table matches it, a matching row declares it
+    UNDEFINED at decode time or UNPREDICTABLE, or the matching row has no operation specification to tell"""
+    from spec.cpu import Cpu
+    base = Cpu(dict(init), 'arm' if iset == 'arm' else 'thumb', instr, oplen)
+    base.st['mem'] = mem0
+    base.st['oracle.excl_pass'] = False
+    out, matches = [], []
+    for r, mt in live_rows(iset, instr):
+        matches.append(mt)
+        if r.op is None or r.opfields is not None:
+            out.append(mt)
+            continue
+        f = r.extract(instr)
+        und = r.undef(f, base) if r.undef is not None else False
+        out.append(land(mt, lor(und, row_unpred_undef(r, instr, base)[0])))
+    return lor(lnot(lor(*matches)) if matches else True, *out)
 
 
 def row_unpred_undef(r, instr, base):
